@@ -37,6 +37,7 @@ Init0 == [ nxt    |-> 1,        \* next harness slot for a send future
            curOk  |-> FALSE,    \* ... its PUBLISH was written (the handle is usable)
            curH   |-> FALSE,    \* ... the application really got a handle (stream_at_most_once returns none on failure)
            curDone |-> FALSE,   \* ... every declared byte has been delivered through it
+           curTold |-> FALSE,   \* ... a handle whose publish was never written has reported StreamingCancelled once
            sr     |-> 0,        \* streaming_remaining
            srId   |-> 0, srQ |-> 0, srLen |-> 0,     \* the streamed PUBLISH that owes them
            inuse  |-> {},       \* inflight_ids
@@ -59,7 +60,7 @@ Ctl(k) == E("ctl", k, 0, 0, 0, 0, 0)
 AwaitedK(st, q, cid, plen, fails, strm, sub) ==
   LET s == st.nxt
       s0 == [st EXCEPT !.nxt = s + 1, !.cur = IF strm THEN s ELSE @, !.curOk = IF strm THEN FALSE ELSE @,
-                        !.curH = IF strm THEN TRUE ELSE @, !.curDone = IF strm THEN FALSE ELSE @]
+                        !.curH = IF strm THEN TRUE ELSE @, !.curDone = IF strm THEN FALSE ELSE @, !.curTold = IF strm THEN FALSE ELSE @]
   IN IF st.dead THEN Emit(s0, << Poll("ready", s), Done("Disconnected", s, 0) >>)
      ELSE LET id == IF cid > 0 THEN cid ELSE st.nextId + 1
               s1 == [s0 EXCEPT !.nextId = IF cid > 0 THEN @ ELSE id]
@@ -82,13 +83,26 @@ Awaited(st, q, cid, plen, fails, strm) == AwaitedK(st, q, cid, plen, fails, strm
 AtMostOnce(st, plen, withId, strm) ==
   LET s == st.nxt
       s0 == [st EXCEPT !.nxt = s + 1, !.cur = IF strm THEN s ELSE @, !.curOk = IF strm THEN FALSE ELSE @,
-                        !.curH = IF strm THEN FALSE ELSE @, !.curDone = IF strm THEN FALSE ELSE @]
+                        !.curH = IF strm THEN FALSE ELSE @, !.curDone = IF strm THEN FALSE ELSE @, !.curTold = IF strm THEN FALSE ELSE @]
   IN IF st.dead THEN Emit(s0, << Done("Disconnected", s, 0) >>)
      ELSE IF st.sr > 0 THEN Emit(s0, << Done("ExpectPayload", s, 0) >>)
      ELSE IF withId THEN Emit(s0, << Done("Encode", s, 0) >>)
      ELSE IF strm THEN Emit([s0 EXCEPT !.sr = plen, !.srId = 0, !.srQ = 0, !.srLen = plen, !.curOk = TRUE, !.curH = TRUE],
                             << Done("ok", s, 0) >>)
      ELSE Emit(s0, << Done("ok", s, 0), OutPub(0, 0, plen) >>)
+
+\* send_at_least_once_no_block (the application has registered publish_ack_cb and has checked is_ready()): answered
+\* inside the call like QoS 0, acknowledged through the callback later
+NoBlock(st, plen) ==
+  LET s == st.nxt
+      s0 == [st EXCEPT !.nxt = s + 1]
+  IN IF st.dead THEN Emit(s0, << Done("Disconnected", s, 0) >>)
+     ELSE LET id == st.nextId + 1
+              s1 == [s0 EXCEPT !.nextId = id] IN
+          IF st.sr > 0 THEN Emit(s1, << Done("ExpectPayload", s, 0) >>)
+          ELSE IF id \in st.inuse THEN Emit(s1, << Done("PacketIdInUse", s, id) >>)
+          ELSE Emit([s1 EXCEPT !.inuse = @ \cup {id}, !.owedP = Append(@, [id |-> id, a |-> "PUBACK"])],
+                    << Done("ok", s, 0), OutPub(id, 1, plen) >>)
 
 \* StreamingPayload::send(n bytes) on the handle the application holds, as a future of its own (slot 40 + nxt)
 Chunk(st, n) ==
@@ -97,7 +111,9 @@ Chunk(st, n) ==
            s0 == [st EXCEPT !.nxt = @ + 1]
            fin(k) == Emit(s0, << Poll("ready", t), Done(k, t, 0) >>)
        IN IF ~st.curH THEN s0                                           \* no handle: nothing happens
-          ELSE IF ~st.curOk THEN fin("StreamingCancelled")
+          ELSE IF ~st.curOk /\ ~st.curTold
+            THEN Emit([s0 EXCEPT !.curTold = TRUE], << Poll("ready", t), Done("StreamingCancelled", t, 0) >>)
+          ELSE IF ~st.curOk THEN fin("Encode")                          \* (the cancellation was reported; now: UnexpectedPayload)
           ELSE IF st.curDone THEN fin("Encode")                         \* UnexpectedPayload: everything was delivered
           ELSE IF st.dead THEN fin("Disconnected")
           ELSE IF st.sr = 0 THEN fin("Encode")
@@ -146,6 +162,7 @@ Do(st, tok) ==
     [] tok = "q0id"   -> AtMostOnce(st, 3, TRUE, FALSE)
     [] tok = "s0"     -> AtMostOnce(st, 5, FALSE, TRUE)
     [] tok = "q1"     -> Awaited(st, 1, 0, 1, "none", FALSE)
+    [] tok = "q1nb"   -> NoBlock(st, 1)
     [] tok = "q2"     -> Awaited(st, 2, 0, 1, "none", FALSE)
     [] tok = "q1id1"  -> Awaited(st, 1, 1, 1, "none", FALSE)
     [] tok = "q1long" -> Awaited(st, 1, 0, 1, "encode", FALSE)
